@@ -1,7 +1,14 @@
-"""E10 path-condition obligations for loop-free decision functions: enumerate acyclic paths, record
-(atom, truth) sequences and the returned value.  Atoms are canonical comparison triples."""
+"""E10 path-condition obligations for loop-free decision functions: enumerate acyclic paths, record (atom, truth)
+sequences and the returned value.  Atoms are canonical comparison triples.
+
+v2: decisions are *consistent* along a path (a condition value decided once is not explored both ways again), compound
+conditions (or / and / logical selects / xor true) are decomposed into their atomic comparisons with short-circuit case
+splits, `select` instructions are resolved per path, conditions whose operands are constants on the path are evaluated,
+and boolean return values (zext/sext of a condition, selects) are split into their outcomes.  This makes the obligations
+independent of whether a test is written as nested ifs, `a || b`, a status flag, a conditional expression or a switch."""
 from .vflow import Canon
 from .guards import NEG
+from .ir import INT
 from .build import AnalysisBroken
 
 class Atom:
@@ -15,7 +22,6 @@ class Path:
     def __init__(self, conds, ret, blocks, env, events):
         self.conds, self.ret, self.blocks, self.env, self.events = conds, ret, blocks, env, events
     def truths(self):
-        """normalised list of (pred, a, b, width, ins): every element holds on this path"""
         out = []
         for at, tv in self.conds:
             if isinstance(at, Atom):
@@ -24,63 +30,170 @@ class Path:
     def __repr__(self):
         return f'<path ret={self.ret} ' + ' '.join(f'{"" if t else "!"}{a}' for a, t in self.conds) + '>'
 
-def enumerate_paths(prog, fn, limit=20000):
+def _eval(pred, a, b, w=32):
+    if pred[0] == 'u':
+        a &= (1 << w) - 1; b &= (1 << w) - 1
+    return {'eq': a == b, 'ne': a != b, 'slt': a < b, 'sle': a <= b, 'sgt': a > b, 'sge': a >= b,
+            'ult': a < b, 'ule': a <= b, 'ugt': a > b, 'uge': a >= b}[pred]
+
+def enumerate_paths(prog, fn, limit=20000, split_returns=True):
     C = Canon(prog, fn)
     out = []
-    def atom_of(v, env):
+
+    class State:
+        __slots__ = ('env', 'conds', 'decided')
+        def __init__(self, env, conds, decided):
+            self.env, self.conds, self.decided = env, conds, decided
+        def fork(self):
+            return State(dict(self.env), list(self.conds), dict(self.decided))
+
+    def decide(v, st, k):
+        """decide the i1 value v on state st; calls k(state, truth) for every consistent outcome"""
+        if v in ('true', 'false'):
+            return k(st, v == 'true')
+        if v in st.env and st.env[v] in ('true', 'false'):
+            return k(st, st.env[v] == 'true')
+        if v in st.decided:
+            return k(st, st.decided[v])
         d = fn.defs.get(v)
-        if d is not None and d.op == 'icmp':
-            w = d.ty
-            return Atom(d.pred, C.val(d.ops[0], env), C.val(d.ops[1], env), w, d, C.val(v, env))
-        if d is not None and d.op == 'xor' and 'true' in d.ops:
+        def record(s2, t):
+            s2.decided[v] = t
+            return k(s2, t)
+        if d is None:
+            # a parameter of type i1
+            for t in (True, False):
+                s2 = st.fork(); s2.conds.append((C.val(v, st.env), t)); record(s2, t)
+            return
+        if d.op == 'xor' and 'true' in d.ops:
             other = d.ops[0] if d.ops[1] == 'true' else d.ops[1]
-            a = atom_of(other, env)
-            if isinstance(a, Atom):
-                return Atom(NEG[a.pred], a.a, a.b, a.width, a.ins, a.raw)
-        if d is not None and d.op in ('trunc', 'zext'):
-            return atom_of(d.ops[0], env)
-        if d is not None and d.op == 'call':
-            return Atom('ne', C.val(v, env), '0', 'i1', d, C.val(v, env))
-        return C.val(v, env)
-    def walk(b, prev, env, conds, visited, blocks, events):
+            return decide(other, st, lambda s2, t: record(s2, not t))
+        if d.op in ('trunc', 'zext', 'sext') and fn.defs.get(d.ops[0]) is not None and (d.optys[0] == 'i1' or d.ty == 'i1'):
+            return decide(d.ops[0], st, record)
+        if d.op == 'or' and d.ty == 'i1':
+            a, b = d.ops
+            return decide(a, st, lambda s2, ta: record(s2, True) if ta else decide(b, s2, record))
+        if d.op == 'and' and d.ty == 'i1':
+            a, b = d.ops
+            return decide(a, st, lambda s2, ta: decide(b, s2, record) if ta else record(s2, False))
+        if d.op == 'select' and d.ty == 'i1':
+            c, a, b = d.ops
+            return decide(c, st, lambda s2, tc: decide(a if tc else b, s2, record))
+        if d.op == 'phi' and d.ty == 'i1':
+            r = st.env.get(v)
+            if r in ('true', 'false'):
+                return record(st, r == 'true')
+            src = st.env.get(('phisrc', v))
+            if src is not None:
+                return decide(src, st, record)
+        if d.op == 'icmp':
+            a, b = C.val(d.ops[0], st.env), C.val(d.ops[1], st.env)
+            if INT.match(a) and INT.match(b):
+                w = int(d.ty[1:]) if d.ty and d.ty[1:].isdigit() else 64
+                return record(st, _eval(d.pred, int(a), int(b), w))
+            if a == b and not a.startswith('@') :
+                # same expression on both sides
+                return record(st, d.pred in ('eq', 'sle', 'sge', 'ule', 'uge'))
+            at = Atom(d.pred, a, b, d.ty, d, f'({a} {d.pred} {b})')
+            # an identical comparison decided earlier on this path
+            key = ('atom', d.pred, a, b)
+            if key in st.decided:
+                return record(st, st.decided[key])
+            for t in (True, False):
+                s2 = st.fork(); s2.conds.append((at, t)); s2.decided[key] = t
+                s2.decided[('atom', NEG[d.pred], a, b)] = not t
+                record(s2, t)
+            return
+        if d.op == 'call':
+            e = C.val(v, st.env)
+            at = Atom('ne', e, '0', 'i1', d, e)
+            for t in (True, False):
+                s2 = st.fork(); s2.conds.append((at, t)); record(s2, t)
+            return
+        e = C.val(v, st.env)
+        for t in (True, False):
+            s2 = st.fork(); s2.conds.append((e, t)); record(s2, t)
+
+    def resolve_selects(b, st, i, k):
+        """resolve non-boolean selects of block b from instruction index i on; k(state)"""
+        insts = b.insts
+        while i < len(insts):
+            ins = insts[i]
+            if ins.op == 'select' and ins.ty != 'i1':
+                c, x, y = ins.ops
+                idx = i
+                def cont(s2, t, ins=ins, x=x, y=y, idx=idx):
+                    s2.env[ins.res] = C.val(x if t else y, s2.env)
+                    resolve_selects(b, s2, idx + 1, k)
+                return decide(c, st, cont)
+            i += 1
+        return k(st)
+
+    def walk(b, prev, st, visited, blocks, events):
         if len(out) > limit:
             raise AnalysisBroken(f'{fn.name}: too many paths for obligation checking')
-        env = dict(env)
+        st = st.fork()
+        if b in blocks:
+            # re-entering a loop: values computed in the cycle change, so their earlier decisions do not carry over
+            cyc = set(blocks[blocks.index(b):])
+            for key in list(st.decided):
+                if isinstance(key, tuple):
+                    del st.decided[key]
+                else:
+                    d = fn.defs.get(key)
+                    if d is not None and d.bb in cyc:
+                        del st.decided[key]
+        newenv = {}
         for ins in b.insts:
             if ins.op == 'phi' and prev is not None:
                 for v, lab in ins.incoming:
                     if lab == prev.label:
-                        env[ins.res] = C.val(v, env)
-        ev = list(events)
-        for ins in b.insts:
-            if ins.op in ('call', 'store'):
-                ev.append(ins)
-        t = b.insts[-1]
+                        newenv[ins.res] = C.val(v, st.env)
+                        if ins.ty == 'i1' and v not in ('true', 'false'):
+                            newenv[('phisrc', ins.res)] = v
+        st.env.update(newenv)
         blocks = blocks + [b]
-        if t.op == 'ret':
-            out.append(Path(conds, C.val(t.ops[0], env) if t.ops else 'void', blocks, env, ev)); return
-        if t.op == 'unreachable':
-            return
-        if t.op == 'br' and len(t.targets) == 2 and t.ops:
-            at = atom_of(t.ops[0], env)
-            for tv, lab in ((True, t.targets[0]), (False, t.targets[1])):
-                nb = fn.blocks[lab]
-                if (b, nb) in visited:
-                    continue
-                walk(nb, b, env, conds + [(at, tv)], visited | {(b, nb)}, blocks, ev)
-        elif t.op == 'switch':
-            scrut = C.val(t.ops[0], env)
-            for val, lab in t.cases:
-                nb = fn.blocks[lab]
-                walk(nb, b, env, conds + [(Atom('eq', scrut, str(val), t.ty, t, scrut), True)], visited | {(b, nb)}, blocks, ev)
-            nb = fn.blocks[t.targets[0]]
-            dconds = conds + [(Atom('eq', scrut, str(val), t.ty, t, scrut), False) for val, _ in t.cases]
-            walk(nb, b, env, dconds, visited | {(b, nb)}, blocks, ev)
-        else:
+        def after_selects(s2):
+            ev = list(events) + [i for i in b.insts if i.op in ('call', 'store')]
+            t = b.insts[-1]
+            if t.op == 'ret':
+                if not t.ops:
+                    out.append(Path(s2.conds, 'void', blocks, s2.env, ev)); return
+                rv = t.ops[0]
+                d = fn.defs.get(rv)
+                if split_returns and d is not None and d.op in ('zext', 'sext') and d.optys and d.optys[0] == 'i1':
+                    one = '1' if d.op == 'zext' else '-1'
+                    return decide(d.ops[0], s2, lambda s3, tt: out.append(Path(s3.conds, one if tt else '0', blocks, s3.env, ev)))
+                out.append(Path(s2.conds, C.val(rv, s2.env), blocks, s2.env, ev)); return
+            if t.op == 'unreachable':
+                return
+            if t.op == 'br' and len(t.targets) == 2 and t.ops:
+                def go(s3, tt):
+                    nb = fn.blocks[t.targets[0] if tt else t.targets[1]]
+                    if (b, nb) in visited:
+                        return
+                    walk(nb, b, s3, visited | {(b, nb)}, blocks, ev)
+                return decide(t.ops[0], s2, go)
+            if t.op == 'switch':
+                scrut = C.val(t.ops[0], s2.env)
+                if INT.match(scrut):
+                    hit = [l for cv, l in t.cases if cv == int(scrut)]
+                    nb = fn.blocks[hit[0] if hit else t.targets[0]]
+                    return walk(nb, b, s2, visited | {(b, nb)}, blocks, ev)
+                for val, lab in t.cases:
+                    nb = fn.blocks[lab]
+                    s3 = s2.fork(); s3.conds.append((Atom('eq', scrut, str(val), t.ty, t, scrut), True))
+                    walk(nb, b, s3, visited | {(b, nb)}, blocks, ev)
+                nb = fn.blocks[t.targets[0]]
+                s3 = s2.fork()
+                for val, _ in t.cases:
+                    s3.conds.append((Atom('eq', scrut, str(val), t.ty, t, scrut), False))
+                return walk(nb, b, s3, visited | {(b, nb)}, blocks, ev)
             for lab in t.targets:
                 nb = fn.blocks[lab]
                 if (b, nb) in visited:
                     continue
-                walk(nb, b, env, conds, visited | {(b, nb)}, blocks, ev)
-    walk(fn.entry, None, {}, [], frozenset(), [], [])
+                walk(nb, b, s2, visited | {(b, nb)}, blocks, ev)
+        resolve_selects(b, st, 0, after_selects)
+
+    walk(fn.entry, None, State({}, [], {}), frozenset(), [], [])
     return out
